@@ -478,6 +478,11 @@ def job_final_stats(P, taps, Wb, npol, bits):
         ant = C02.FakeAntenna(npol)
         be = B.RawVoltageBackend.from_data('/mem/in', ant, digitizer=C02.UQ(), filterbank=PF.PolyphaseFilterbank(num_taps=taps, num_branches=P), start_chan=0, num_subblocks=1)
         be.input_file_handler = fs.open('/mem/in.0000.raw', 'rb')
+        # the sample cap of the requantiser's own estimator is not the size of the block: were the target statistics
+        # taken from a capped prefix of the block, a cap below the block length shows it
+        for row in be.requantizer:
+            for rq in row:
+                rq.stats_calc_num_samples = 2
         be._read_next_block()
         return be
     with volt_patches(opener=fs.open, globber=glob_stub, extra=[(Q, dict(ComplexQuantizer=StubCQ))]):
@@ -498,7 +503,7 @@ def job_final_stats(P, taps, Wb, npol, bits):
     r, m = core.check(pre + leaf.side + [z3.Or(*dis)], timeout_ms=120000)
     recs.append(q(tag, r))
     if r == 'sat':
-        recs.append(cex('C14:final-stats', 'requantiser target statistics are not the mean / deviation of the decoded input block', dict(fn='inject', P=P, taps=taps, Wb=Wb, nsb=1, npol=npol, nant=1, bits=bits, nc=1, n_in=1, bpf=1, directio=None, n_req=1, digitize=True), name=tag))
+        recs.append(cex('C14:final-stats', 'requantiser target statistics are not the mean / deviation of the decoded input block', dict(fn='inject', P=P, taps=taps, Wb=Wb, nsb=1, npol=npol, nant=1, bits=bits, nc=1, n_in=1, bpf=1, directio=None, n_req=1, digitize=True, small_stats=True), name=tag))
     return recs
 
 
@@ -587,6 +592,10 @@ def replay_inject(p):
         fb0 = pf.PolyphaseFilterbank(num_taps=taps, num_branches=P)
         fb0.channelized_stds = np.array([0.7, 0.9])
         be0 = bk.RawVoltageBackend.from_data(os.path.join(d, 'in'), src0, digitizer=qz.RealQuantizer(target_fwhm=8, num_bits=8), filterbank=fb0, start_chan=0, num_subblocks=nsb)
+        if p.get('small_stats'):
+            for row in be0.requantizer:
+                for rq in row:
+                    rq.stats_calc_num_samples = 2
         be0.record(os.path.join(d, 'sil'), num_blocks=n_req, length_mode='num_blocks', header_dict={}, digitize=digitize, verbose=False, load_template=False)
         Wn = int(np.ceil(T / taps / nsb)) + 1
         sT = taps * (Wn - 1)
